@@ -35,6 +35,12 @@ CHECKS = {
         technique='CrossHair symbolic execution (z3) of the six tree operations with symbolic cardinalities and symbolic leaf-group widths vs reference tree facts; exhaustive shape enumeration',
         text='Shapes are enumerated (enumeration); cardinalities and the widths of leaf groups are solver variables; every operation result must equal the reference tree fact on every path, incl. ancestors of every feature and the root-only model. Bounded.',
         note='Trusted: CrossHair + patches, z3, reference tree facts. N<=5/6, widths<=4/6; corpus clause not covered by the solver.'),
+    'C18': dict(
+        category='model_checking', design_ref='6 C18',
+        technique='z3 equivalence queries over all truth assignments on what the real Constraint predicates / split_constraint returned for every enumerated expression tree; CrossHair symbolic execution of get_features / get_new_ctc_name on symbolic names',
+        text='Expression trees are enumerated (all depth<=1 over all 23 operators, depth 2 over the 8 logical operators: restricted in quick, all 59049 in thorough, plus seeded deeper ones); for each tree the real functions run and z3 decides the assignment quantifier '
+             '(requires/excludes soundness, split equivalence). Names are symbolic in the CrossHair conditions. Bounded.',
+        note='Trusted: z3, CrossHair + patches, the reference truth tables in refsem.py (ast2z3 is cross-checked against tree2z3_expr on every tree). flamapy.core is executed as is; its simplify_formula defect is a listed known finding.'),
 }
 
 NOT_YET = {}
